@@ -102,12 +102,41 @@ def match_known(prop, f, witnesses):
             continue
         if k.get("clause_contains") and k["clause_contains"] not in f["clause"]:
             continue
-        pat = k.get("input_regex")
-        if not witnesses:
-            continue
-        if all(re.search(pat, w.get("input", ""), re.S) for w in witnesses):
+        # the search is per property, not per obligation: this failure is the recorded finding iff the search shows the
+        # finding's input class on the real code.  Witnesses outside every recorded finding are NOT dropped: the caller
+        # reports them (with the other failing obligations, or as an unattributed violation).
+        if any(known_matches_witness(k, w) for w in witnesses):
             return k
     return None
+
+
+def known_matches_witness(k, w):
+    """input_regex (and observed_regex, when the finding has one) must match the witness"""
+    if not re.search(k.get("input_regex", "$^"), w.get("input", ""), re.S):
+        return False
+    if k.get("observed_regex") and not re.search(k["observed_regex"], w.get("observed", ""), re.S):
+        return False
+    return True
+
+
+def drop_known(prop, ws, announce=True):
+    """remove witnesses that a listed open finding of this property names; print its KNOWN-FINDING line once"""
+    keep, hit = [], {}
+    for w in ws:
+        ks = [k for k in known_findings() if k.get("property") == prop and k.get("status", "open") == "open" and known_matches_witness(k, w)]
+        if ks:
+            hit[ks[0]["id"]] = ks[0]
+        else:
+            keep.append(w)
+    if announce:
+        for k in hit.values():
+            if k["id"] not in _ANNOUNCED:
+                _ANNOUNCED.add(k["id"])
+                print("KNOWN-FINDING: property=%s %s" % (prop, k["what"]))
+    return keep, list(hit.values())
+
+
+_ANNOUNCED = set()
 
 
 def check(prop, tier, seed):
@@ -166,7 +195,7 @@ def check(prop, tier, seed):
         if P.get("search") and replay_ok:
             fake = {"site_item": "(verifier undecided)", "clause": "", "message": "undecided: " + undecided[0][:300], "clause_item": None, "rendered": "\n".join(undecided)[:4000], "props": [prop]}
             ws, note = witness_search(prop, fake, timeout=300)
-            ws = [w for w in ws if not any(k.get("property") == prop and k.get("status", "open") == "open" and re.search(k.get("input_regex", "$^"), w.get("input", ""), re.S) for k in known_findings())]
+            ws, _ = drop_known(prop, ws)
             if ws:
                 path = write_replay(prop, 1, fake, ws, "verifier undecided (%s); BOUNDED witness search on the real crate found this input" % undecided[0][:200], "")
                 bounded.append((fake, path, ws))
@@ -193,15 +222,21 @@ def check(prop, tier, seed):
                 fails.append((rs[0], f))
 
     violations, known = [], []
+    leftover = []
     n = 0
     for r, f in fails:
         ws, note = witness_search(prop, f) if P.get("search") else ([], "no witness search for this property")
         k = match_known(prop, f, ws)
         if k:
             known.append((k, f))
-            print("KNOWN-FINDING: property=%s %s" % (prop, k["what"]))
+            if k["id"] not in _ANNOUNCED:
+                _ANNOUNCED.add(k["id"])
+                print("KNOWN-FINDING: property=%s %s" % (prop, k["what"]))
+            rest, _ = drop_known(prop, ws, announce=False)
+            leftover += [w for w in rest if w not in leftover]
             continue
         n += 1
+        ws, _ = drop_known(prop, ws, announce=False)   # never attach a recorded finding's input to another obligation
         path = write_replay(prop, n, f, ws, note, r["path"])
         violations.append((f, path, ws))
         tail = "" if ws else " no-failing-input-found"
@@ -211,13 +246,22 @@ def check(prop, tier, seed):
         elif note:
             print("  " + note)
         print("VIOLATION property=%s replay=%s%s" % (prop, path, tail))
+    if leftover and not violations:
+        # a failing input outside every recorded finding, found while confirming a recorded one: a different violation
+        n += 1
+        fake = {"site_item": "(witness search)", "clause": "", "message": "witness search on the real crate", "clause_item": None, "rendered": "", "props": [prop]}
+        path = write_replay(prop, n, fake, leftover, "found by the witness search; not covered by any recorded finding", "")
+        violations.append((fake, path, leftover))
+        print("WITNESS (outside the recorded findings): input=%r observed=%r expected=%r" % (leftover[0].get("input"), leftover[0].get("observed"), leftover[0].get("expected")))
+        print("VIOLATION property=%s replay=%s" % (prop, path))
     # bounded stand-in for the code this property depends on that is NOT under contract (listed in the property's
     # assumptions): the witness search on the real crate.  Labelled bounded; never counted as proved.
     bounded_note = None
     if not violations and P.get("bounded_standin") and replay_ok:
         fake = {"site_item": "(bounded stand-in: %s)" % P["bounded_standin"], "clause": "", "message": "bounded witness search", "clause_item": None, "rendered": "", "props": [prop]}
         ws, note = witness_search(prop, fake, timeout=180)
-        ws = [w for w in ws if not any(k.get("property") == prop and k.get("status", "open") == "open" and re.search(k.get("input_regex", "$^"), w.get("input", ""), re.S) for k in known_findings())]
+        ws, known_b = drop_known(prop, ws)
+        known += [(k, fake) for k in known_b if k["id"] not in [x["id"] for x, _ in known]]
         bounded_note = "bounded stand-in (%s): %d witness(es)%s" % (P["bounded_standin"], len(ws), (" ; " + note) if note else "")
         if ws:
             n += 1
@@ -254,6 +298,7 @@ def clause_count(u):
 def write_evidence(prop, tier, seed, P, results, violations, known, wall, trusted_note, undecided, bounded_note=None):
     os.makedirs(EVID, exist_ok=True)
     obligations = discharged = 0
+    known_obl = []
     functions, rule_apps, samples, canaries, cmds, assumptions_scan = [], {}, [], [], [], []
     solver_ms = 0
     seen_units = set()
@@ -268,6 +313,8 @@ def write_evidence(prop, tier, seed, P, results, violations, known, wall, truste
         # extracted functions carrying the property, plus every spec function / lemma / shim of the unit
         by_vpath = {f["vpath"]: f for f in unit.functions if f.get("kind") == "fn"}
         failed_items = set(x["site_item"] for x in r["failures"] if prop in x["props"])
+        known_items = set(f["site_item"] for _, f in known)
+        viol_items = set(f["site_item"] for f, _, _ in violations)
         for fname, fr in r["funcs"].items():
             short = fname.split("::", 1)[1] if "::" in fname else fname
             rec = by_vpath.get(short)
@@ -276,6 +323,12 @@ def write_evidence(prop, tier, seed, P, results, violations, known, wall, truste
             ok = fr["success"]
             if rec is not None and not ok and rec["item"] not in failed_items:
                 ok = True  # it failed, but on a clause that carries another property
+            item = rec["item"] if rec is not None else short   # lemmas / spec items are keyed by their own name
+            if not ok and item in known_items and item not in viol_items:
+                # fails only on a listed known finding: reported (KNOWN-FINDING line, known_findings_matched,
+                # known_finding_obligations) and NOT counted among the obligations this run claims as proved
+                known_obl.append(item)
+                continue
             obligations += 1
             discharged += 1 if ok else 0
             solver_ms += fr.get("time_us", 0) / 1000.0
@@ -325,6 +378,8 @@ def write_evidence(prop, tier, seed, P, results, violations, known, wall, truste
             "trusted_std_facts_native_validation": trusted_note,
             "assumption_scan": assumptions_scan,
             "known_findings_matched": [k["id"] for k, _ in known],
+            "known_finding_obligations": sorted(set(known_obl)),
+            "known_finding_note": "functions listed in known_finding_obligations FAIL their contract on this tree for the recorded known finding only; they are excluded from obligations/discharged and are not claimed as proved",
             "bounded_checks": P.get("bounded", []) + ([bounded_note] if bounded_note else []),
             "undecided": undecided,
             "failed_obligations": [obligation_id(f) for f, _, _ in violations],
